@@ -296,7 +296,11 @@ def check_color(ck, bad):
                     derived.add(l)
                     changed = True
                     break
-    allowed = ("core::cmp::PartialEq::eq", "core::cmp::PartialEq::ne", "::deref", "::as_ref", "::as_str", "::eq", "::ne", "::borrow")
+    # comparisons and borrowed views of the value (views are followed: what they produce is `derived` too)
+    allowed = ("core::cmp::PartialEq::eq", "core::cmp::PartialEq::ne", "::deref", "::as_ref", "::as_str", "::eq", "::ne", "::borrow",
+               "Option::<T>::as_deref", "Option::<T>::map", "Option::<T>::is_some", "Option::<T>::is_none", "Option::<T>::unwrap_or",
+               "Option::<T>::unwrap_or_default", "<impl str>::eq_ignore_ascii_case", "<impl str>::starts_with", "<impl str>::is_empty",
+               "String::is_empty", "core::mem::drop", "core::ptr::drop_in_place")
     for bb, t in run_fn.calls():
         if run_fn.blocks[bb]["cleanup"]:
             continue
